@@ -88,3 +88,27 @@ pub fn rws_cursor_new<'a>(b: &'a [u8]) -> (r: std::io::Cursor<&'a [u8]>)
 {
     std::io::Cursor::new(b)
 }
+
+// ----- what Server::setup hands the settings to -----
+use std::net::TcpListener;
+#[verifier::external_type_specification]
+#[verifier::external_body]
+pub struct ExTcpListener(std::net::TcpListener);
+pub uninterp spec fn listener_addr(l: std::net::TcpListener) -> Seq<char>;     // the text the listener was bound with
+#[verifier::external_body]
+pub fn rws_tcp_bind(addr: &String) -> (r: Result<std::net::TcpListener, std::io::Error>)
+    ensures r.is_ok() ==> listener_addr(r.unwrap()) == addr@,
+{
+    std::net::TcpListener::bind(addr)
+}
+// the worker pool (src/thread_pool/mod.rs; its behaviour is C06 / C07, not covered): only its size matters here.
+// ThreadPool::new PANICS on size 0 (assert!(size > 0)); a thread count of 0 or below is an operator's configuration error.
+#[verifier::external_body]
+pub struct ThreadPool { _p: core::marker::PhantomData<()> }
+pub uninterp spec fn pool_size(p: ThreadPool) -> int;
+impl ThreadPool {
+    #[verifier::external_body]
+    pub fn new(size: usize) -> (r: ThreadPool)
+        ensures pool_size(r) == size,
+    { unimplemented!() }
+}
